@@ -534,8 +534,10 @@ def cfgFlush : Cfg := {
 limit → return" is not taken) -/
 def cfgPut : Cfg := {
   dec := [("DB.PutBytes", "!simpledb.DB.open", [false]), ("DB.PutBytes", "simpledb.DB.closed", [false]),
+          ("DB.PutBytes", "simpledb.DB.open", [true]), ("DB.PutBytes", "!simpledb.DB.closed", [true]),
           ("DB.PutBytes", "simpledb.DB.enableAsyncWAL", [false]),
-          ("DB.PutBytes", "simpledb.DB.memstoreMaxSize >= simpledb.DB.memStore.EstimatedSizeInBytes()", [false])] ++ commonDec
+          ("DB.PutBytes", "simpledb.DB.memstoreMaxSize >= simpledb.DB.memStore.EstimatedSizeInBytes()", [false]),
+          ("DB.PutBytes", "simpledb.DB.memstoreMaxSize < simpledb.DB.memStore.EstimatedSizeInBytes()", [true])] ++ commonDec
   reps := commonReps
   callee := callees }
 
@@ -549,6 +551,7 @@ def cfgDelete : Cfg := {
 /-- `Close` of an open database with a non-empty write store, compactions disabled -/
 def cfgClose : Cfg := {
   dec := [("DB.Close", "!simpledb.DB.open", [false]), ("DB.Close", "simpledb.DB.closed", [false]),
+          ("DB.Close", "simpledb.DB.open", [true]), ("DB.Close", "!simpledb.DB.closed", [true]),
           ("DB.Close", "simpledb.DB.enableCompactions", [false]),
           ("simpledb.executeFlush", "simpledb.memStoreFlushAction.walPath != \"\"", [true])] ++ commonDec
   reps := commonReps
@@ -565,6 +568,7 @@ def cfgCompact : Cfg := {
           ("simpledb.executeCompaction", "!‹bool›", [false]),      -- !writerClosed, in the deferred fall-back
           ("SSTableManager.reflectCompactionResult", "simpledb.indexOfReader(simpledb.SSTableManager.allSSTableReaders, elem(simpledb/proto.CompactionMetadata.SstablePaths)) >= 0", [true]),
           ("SSTableManager.reflectCompactionResult", "simpledb.indexOfReader(simpledb.SSTableManager.allSSTableReaders, simpledb/proto.CompactionMetadata.ReplacementPath) < 0", [false]),
+          ("SSTableManager.reflectCompactionResult", "simpledb.indexOfReader(simpledb.SSTableManager.allSSTableReaders, simpledb/proto.CompactionMetadata.ReplacementPath) >= 0", [true]),
           ("SSTableManager.reflectCompactionResult", "elem(simpledb/proto.CompactionMetadata.SstablePaths) != simpledb/proto.CompactionMetadata.ReplacementPath", [false, true]),
           ("SSTableManager.reflectCompactionResult", "simpledb.indexOfReader(simpledb.SSTableManager.allSSTableReaders, elem(simpledb/proto.CompactionMetadata.SstablePaths)) < 0", [false])] ++ commonDec
   reps := [("simpledb.backgroundCompaction", "", 1), ("simpledb.executeCompaction", "‹[]string›", 2),
@@ -582,7 +586,8 @@ def cfgOpen (withWal : Bool) : Cfg := {
           ("DB.repairCompactions", "elem(simpledb/proto.CompactionMetadata.SstablePaths) != simpledb/proto.CompactionMetadata.ReplacementPath", [false, true]),
           ("DB.reconstructSSTables", "len(simpledb.DB.sstableManager.allSSTableReaders) != 0", [false]),
           ("DB.reconstructSSTables", "len(‹[]string›) > 0", [withWal]),
-          ("DB.reconstructSSTables", "simpledb.hasEmptyMetadata(elem(‹[]string›))", [false, true]),
+          -- the empty-metadata test (a private helper or written out in the loop: the same text)
+          ("DB.reconstructSSTables", "errNil && io/fs.FileInfo.Size() == 0", [false, true]),
           ("DB.reconstructSSTables", "errNonNil", [false]),
           ("simpledb.removeUnfinishedTable", "errNonNil && !os.IsNotExist(‹error›)", [false]),
           ("DB.replayAndSetupWriteAheadLog", "simpledb.DB.enableDirectIOWAL", [false]),
